@@ -211,6 +211,7 @@ pub fn evaluate(spec: &Spec, completed: bool) -> Vec<Violation> {
             "c13_commands" => router::c13_commands(&mut cx),
             "c06_shards" => router::c06_shards(&mut cx),
             "c05_roles" => router::c05_roles(&mut cx),
+            "c19_plugins" => router::c19_plugins(&mut cx),
             "c07_bans" => routing::c07_bans(&mut cx),
             "c07_expiry" => routing::c07_expiry(&mut cx),
             other => {
